@@ -1,3 +1,6 @@
+#[cfg(bpaf_verif)]
+#[allow(unused_imports)]
+use crate::verif::std;
 use std::borrow::Cow;
 
 use crate::{complete_gen::ShowComp, Error, Meta, Parser, State};
